@@ -538,6 +538,11 @@ pub fn closure_call<T: Elem>() -> T {
 /// lazy iterator creating `left` brand-new elements, one per `next`
 pub struct Gen<T> {
     left: usize,
+    /// which (always truthful) `size_hint` the source reports: 0 = unknown `(0, None)`, 1 = exact,
+    /// 2 = loose `(left / 2, Some(2 * left + 3))`.  Chosen from the length, so a script replays exactly.
+    /// A correct consumer behaves the same under all three (seeded change C12-H: `from_iter` taking the
+    /// upper bound for the length).
+    hint: u8,
     _p: PhantomData<T>,
 }
 
@@ -545,6 +550,7 @@ impl<T> Gen<T> {
     pub fn new(m: usize) -> Self {
         Gen {
             left: m,
+            hint: (m % 3) as u8,
             _p: PhantomData,
         }
     }
@@ -565,5 +571,12 @@ impl<T: Elem> Iterator for Gen<T> {
         };
         count_restore(prev);
         r
+    }
+    fn size_hint(&self) -> (usize, Option<usize>) {
+        match self.hint {
+            0 => (0, None),
+            1 => (self.left, Some(self.left)),
+            _ => (self.left / 2, Some(2 * self.left + 3)),
+        }
     }
 }
